@@ -72,14 +72,21 @@ pub struct CfgPolicy {
     /// tab sizes evaluated at a sparse width set
     pub tabs_sparse: Vec<usize>,
     pub reorder: Vec<bool>,
+    /// values of `blank_lines_upper_bound` other than the default 2, evaluated at `BLANK_WIDTHS`
+    /// with the first full tab size
+    pub blanks: Vec<usize>,
+    /// degenerate indent units (0, 1), evaluated at `EDGE_TAB_WIDTHS`
+    pub tabs_edge: Vec<usize>,
 }
 
 pub const EXTRA_WIDTHS: [usize; 7] = [80, 100, 120, 121, 200, 10_000, usize::MAX / 2];
 const SPARSE_WIDTHS: [usize; 10] = [0, 1, 7, 14, 21, 28, 40, 60, 80, 10_000];
+const BLANK_WIDTHS: [usize; 2] = [0, 10_000];
+const EDGE_TAB_WIDTHS: [usize; 3] = [0, 40, 10_000];
 
 impl CfgPolicy {
     pub fn standard(cap: usize, tabs_full: &[usize], tabs_sparse: &[usize]) -> CfgPolicy {
-        CfgPolicy { widths: Widths::All { cap }, tabs_full: tabs_full.to_vec(), tabs_sparse: tabs_sparse.to_vec(), reorder: vec![false] }
+        CfgPolicy { widths: Widths::All { cap }, tabs_full: tabs_full.to_vec(), tabs_sparse: tabs_sparse.to_vec(), reorder: vec![false], blanks: vec![], tabs_edge: vec![] }
     }
 
     /// The configuration set for one input. `w_star` per DESIGN §3.
@@ -88,7 +95,7 @@ impl CfgPolicy {
         for &reorder in &self.reorder {
             match &self.widths {
                 Widths::All { cap } => {
-                    let inf = guarded(|| subject.format(input, &Cfg { max_width: 1_000_000, tab_spaces: self.tabs_full[0], reorder }));
+                    let inf = guarded(|| subject.format(input, &Cfg { max_width: 1_000_000, tab_spaces: self.tabs_full[0], reorder, blank: 2 }));
                     let longest = match &inf {
                         Ok(Ok(o)) => o.split('\n').map(|l| l.chars().count()).max().unwrap_or(0),
                         _ => input.len(),
@@ -97,44 +104,54 @@ impl CfgPolicy {
                     let top = (w_star + 3).min(*cap);
                     for &t in &self.tabs_full {
                         for w in 0..=top {
-                            res.push(Cfg { max_width: w, tab_spaces: t, reorder });
+                            res.push(Cfg { max_width: w, tab_spaces: t, reorder, blank: 2 });
                         }
                         for &w in EXTRA_WIDTHS.iter() {
                             if w > top {
-                                res.push(Cfg { max_width: w, tab_spaces: t, reorder });
+                                res.push(Cfg { max_width: w, tab_spaces: t, reorder, blank: 2 });
                             }
                         }
                     }
                     for &t in &self.tabs_sparse {
                         for &w in SPARSE_WIDTHS.iter() {
-                            res.push(Cfg { max_width: w, tab_spaces: t, reorder });
+                            res.push(Cfg { max_width: w, tab_spaces: t, reorder, blank: 2 });
                         }
                     }
                 }
                 Widths::Huge => {
                     let w = 10_000 * (1 + input.len());
                     for &t in self.tabs_full.iter().chain(self.tabs_sparse.iter()) {
-                        res.push(Cfg { max_width: w, tab_spaces: t, reorder });
+                        res.push(Cfg { max_width: w, tab_spaces: t, reorder, blank: 2 });
                     }
                 }
                 Widths::HugeThenAll { cap } => {
                     let w = 10_000 * (1 + input.len());
                     for &t in self.tabs_full.iter() {
-                        res.push(Cfg { max_width: w, tab_spaces: t, reorder });
+                        res.push(Cfg { max_width: w, tab_spaces: t, reorder, blank: 2 });
                     }
                     let top = ((input.len() as f64 / 0.6).ceil() as usize + 5).min(*cap);
                     for &t in self.tabs_sparse.iter() {
                         for w in 0..=top {
-                            res.push(Cfg { max_width: w, tab_spaces: t, reorder });
+                            res.push(Cfg { max_width: w, tab_spaces: t, reorder, blank: 2 });
                         }
                     }
                 }
                 Widths::Fixed(ws) => {
                     for &t in self.tabs_full.iter().chain(self.tabs_sparse.iter()) {
                         for &w in ws {
-                            res.push(Cfg { max_width: w, tab_spaces: t, reorder });
+                            res.push(Cfg { max_width: w, tab_spaces: t, reorder, blank: 2 });
                         }
                     }
+                }
+            }
+            for &blank in &self.blanks {
+                for &w in BLANK_WIDTHS.iter() {
+                    res.push(Cfg { max_width: w, tab_spaces: self.tabs_full[0], reorder, blank });
+                }
+            }
+            for &t in &self.tabs_edge {
+                for &w in EDGE_TAB_WIDTHS.iter() {
+                    res.push(Cfg { max_width: w, tab_spaces: t, reorder, blank: 2 });
                 }
             }
         }
